@@ -41,7 +41,10 @@ ImageMutOk(r, h, run) ==
     CASE x.k = "accept" -> /\ r.obs.verdict = "accepted"
                            /\ r.obs.x = x.x /\ r.obs.y = x.y /\ r.obs.z = x.z      \* "sizes consistent with header"
                            /\ r.obs.minz = 0 /\ r.obs.miny = -(x.y \div 2) /\ r.obs.minx = -(x.x \div 2)
-      [] x.k = "reject" -> Rejected(r.obs)
+      \* a header that does not parse is reported as such: read_interfile_image returns 0 (after the parser's
+      \* warning) unless the parser raised error() - not as a failure to open a file whose name was never read
+      [] x.k = "reject" -> IF r.reader = "img_direct" /\ x.stage = "parse" THEN r.obs.verdict = (IF x.thrown THEN "error" ELSE "null")
+                           ELSE Rejected(r.obs)
       [] OTHER -> r.obs.verdict # "abort"
 \* a projection data reader: must reject what the model rejects; may accept otherwise, then with the
 \* announced shape, and all data can be read only if the file is long enough; a header with the same
@@ -89,7 +92,7 @@ ClassifyMut(r, h, run) ==
   ELSE IF r.obs.verdict = "abort" /\ r.obs.kind = "asan:out-of-memory" /\ (run.why = "HugeLength" \/ HugeAnnounced(v)) THEN "C17-hugealloc"
   ELSE IF /\ r.obs.verdict = "abort" /\ h.kind = "image"
           /\ (StartsWith(r.obs.kind, "ubsan:member access within null pointer") \/ r.obs.kind = "asan:SEGV")
-          /\ \E x \in {ImageJudge(run, h.cfg)} : x.k = "reject" /\ x.why \notin {"data file", "no dataset", "number type", "offset", "data file too short"}
+          /\ \E x \in {ImageJudge(run, h.cfg)} : x.k = "reject" /\ x.stage = "parse"
        THEN "C17-imgnull"       \* the header did not parse (hdr.parse() false): no image was created
   ELSE IF r.obs.verdict = "abort" /\ run.verdict = "accepted" /\ (Len(v.data_offset) = 0 \/ Len(v.image_scaling_factors) = 0) THEN "C17-nodataset"
   ELSE IF r.obs.verdict = "abort" /\ h.kind = "projdata" /\ run.why = "MissingMatrixSize" THEN "C17-matrixsize-missing"
